@@ -226,6 +226,9 @@ func TrimPrefix(s, prefix []byte) []byte {
 		}
 		return s
 	}
+	if i != len(prefix) {
+		return s // s exhausted before prefix
+	}
 	return s[i:]
 
 hasUnicode:
